@@ -5,6 +5,9 @@ package main
 import (
 	"fmt"
 	"runtime/debug"
+
+	sdk "github.com/cosmos/cosmos-sdk/types"
+	oracletypes "github.com/elys-network/elys/x/oracle/types"
 )
 
 func shortStackAll() string { return string(debug.Stack()) }
@@ -17,6 +20,9 @@ func sceneFor(name string) SceneOpts {
 		o.Lifetime = 2
 		o.Expiry = 60
 		o.NoPrices = true
+	case "vesting":
+		o.VestBlocks = 3
+		o.MaxVestings = 3
 	case "chain":
 		o.Lifetime = 3
 		o.Expiry = 3600
@@ -41,6 +47,26 @@ func prepScene(d *Driver, name string) {
 		}
 	}
 	switch name {
+	case "oracle":
+		// names that are prefixes / concatenations of one another are probed at every observation
+		c.ProbeAssets = []string{"ETH", "ETHZ", "ET", "ETHelys", "ETHe", "WBTC", "WBTC.e", "BTC"}
+		c.ProbeDenoms = []string{"uusdc", "uatom", "unknown"}
+		c.AddKey("f2")
+		ctx := c.AdminCtx()
+		c.mint(ctx, c.Addr["f2"], sdk.NewCoins(sdk.NewInt64Coin("uusdc", 1_000_000_000)))
+		c.App.OracleKeeper.SetPriceFeeder(ctx, oracletypes.PriceFeeder{Feeder: c.Addr["f2"].String(), IsActive: false})
+	case "vesting":
+		// u1 and u2 hold claimable Eden (as masterchef / estaking rewards would credit it)
+		ctx := c.AdminCtx()
+		for _, n := range []string{"u1", "u2"} {
+			coins := sdk.NewCoins(sdk.NewInt64Coin("ueden", 2_000_020))
+			if err := c.App.CommitmentKeeper.MintCoins(ctx, "masterchef", coins); err != nil {
+				panic(err)
+			}
+			if err := c.App.CommitmentKeeper.SendCoinsFromModuleToAccount(ctx, "masterchef", c.Addr[n], coins); err != nil {
+				panic(err)
+			}
+		}
 	case "ledger", "rewards", "":
 		// pool 1: balancer uatom/uusdc fee 0.3 %, pool 2: balancer uelys/uusdc 1:2 weights fee 1 %
 		mk(Step{"a": "createPool", "kind": "bal", "fee": "0.003", "d1": "uatom", "d2": "uusdc", "a1": "200000000000", "a2": "1000000000000"},
